@@ -19,7 +19,7 @@ mkdir -p $OUT
 cp mut$X.diff $OUT/patch.diff
 cp tests/demo_$X.rs $OUT/demo.rs
 s=$(date +%s)
-(cd /verif && VERIF_REPO=$WT VERIF_NO_EVIDENCE=1 ./check $P $TIER > /tmp/mutcheck-$P-$X.txt 2>&1); rc=$?
+(cd ${VERIF_DIR:-/verif} && VERIF_REPO=$WT VERIF_NO_EVIDENCE=1 ./check $P $TIER > /tmp/mutcheck-$P-$X.txt 2>&1); rc=$?
 e=$(date +%s)
 git checkout -q -- src
 viol=$(grep -c "^VIOLATION property=$P" /tmp/mutcheck-$P-$X.txt)
